@@ -652,6 +652,11 @@ func (in *inliner) findSites(pk *packages.Package, file *ast.File) []inlineSiteT
 			}
 		}()
 		switch par := stack[k-1].(type) {
+		case *ast.GoStmt:
+			// `go helper(args)` is `go func(params) { body }(args)`: the goroutine written as a function literal
+			if par.Call == call {
+				out = append(out, inlineSiteT{form: "go", stmt: par, call: call, callee: callee, calleeIdent: id})
+			}
 		case *ast.ExprStmt:
 			if inList(k-1) || isElseOrBody(stack, k-1) {
 				out = append(out, inlineSiteT{form: "stmt", stmt: par, call: call, callee: callee, calleeIdent: id})
@@ -1196,6 +1201,9 @@ func (in *inliner) expand(pk *packages.Package, file *ast.File, s inlineSiteT) (
 			in.lastImports = needImports // merged by the caller once the expansion has been validated
 		}
 	}()
+	if s.form == "go" {
+		return in.expandGo(pk, file, s, fd, hsrc)
+	}
 	// rename everything declared inside the helper
 	local := func(o types.Object) bool {
 		if o == nil || o.Pos() == token.NoPos {
